@@ -52,14 +52,20 @@ def _rates(draw, big):
     # optionally the tensor is built with a cut-off time of 7-9 correlation times (inside the axis): the half-Fourier
     # integral has converged there, so the golden-rule value is still the expectation
     cut = draw(st.sampled_from([None, None, 7, 8, 9]))
-    return {"kind": "rates", "spec": spec, "cutoff_in_cortimes": cut}
+    # the rate matrix and the tensor may be taken from one aggregate that has been used before: a time-dependent rate
+    # matrix computed from its Hamiltonian and system-bath interaction first; one site's bath may be assigned twice (the
+    # second assignment replaces the first)
+    return {"kind": "rates", "spec": spec, "cutoff_in_cortimes": cut,
+            "shared_after": draw(st.sampled_from([None, None, "td_rates", "rates"])),
+            "reassign": draw(st.sampled_from([None, None, 0, 1]))}
 
 
 @st.composite
 def _bath(draw):
     return {"kind": "bath", "reorg": draw(st.integers(5, 150)), "cortime": draw(st.integers(20, 200)),
             "T": draw(st.integers(50, 400)), "nt": draw(st.integers(100, 600)), "dt": draw(st.sampled_from([0.5, 1.0, 2.0])),
-            "ftype": draw(st.sampled_from(["OverdampedBrownian", "UnderdampedBrownian"])),
+            "ftype": draw(st.sampled_from(["OverdampedBrownian", "UnderdampedBrownian", "OverdampedBrownian",
+                                           "UnderdampedBrownian", "B777-alternative", "CP29"])),
             "freq": draw(st.integers(100, 800)), "gamma": draw(st.integers(5, 60)),
             "ft_units": draw(st.sampled_from([None, "1/cm", "eV", "THz"]))}
 
@@ -120,7 +126,24 @@ def _check_rates(case, ctx):
         return k, allowed
 
     # ---- Redfield rate matrix ---------------------------------------------------------------
-    ok, RR = guarded(ctx, "redfield-rates", lambda: numpy.array(gens.make_aggregate(qr, spec).get_RedfieldRateMatrix().data))
+    shared = {}
+
+    def the_aggregate():
+        """a fresh aggregate per use, or one shared aggregate with a history"""
+        if not case.get("shared_after"):
+            return gens.make_aggregate(qr, spec)
+        if "agg" not in shared:
+            agg = gens.make_aggregate(qr, spec)
+            ham, sbi = agg.get_Hamiltonian(), agg.get_SystemBathInteraction()
+            if case["shared_after"] == "td_rates":
+                from quantarhei.qm import TDRedfieldRateMatrix
+                TDRedfieldRateMatrix(ham, sbi)
+            else:
+                agg.get_RedfieldRateMatrix()
+            shared["agg"] = agg
+        return shared["agg"]
+    ctx.label("objects:" + (("shared-after-" + case["shared_after"]) if case.get("shared_after") else "fresh"))
+    ok, RR = guarded(ctx, "redfield-rates", lambda: numpy.array(the_aggregate().get_RedfieldRateMatrix().data))
     if ok:
         if RR.shape != (n + 1, n + 1):
             ctx.fail("redfield-rates/shape", got=list(RR.shape))
@@ -148,7 +171,7 @@ def _check_rates(case, ctx):
 
     # ---- Redfield tensor, population elements in the exciton basis ----------------------------------
     def tensor():
-        agg = gens.make_aggregate(qr, spec)
+        agg = the_aggregate()
         RT, ham = agg.get_RelaxationTensor(ta, relaxation_theory="standard_Redfield")
         with qr.eigenbasis_of(ham):
             return numpy.array(RT.data)
@@ -196,7 +219,32 @@ def _check_rates(case, ctx):
                                   w_cm=round((ev[b] - ev[a]) / orc.CM2INT, 1), N=n)
 
     # ---- Foerster rate matrix --------------------------------------------------------------------------
-    ok, KF = guarded(ctx, "foerster-rates", lambda: numpy.array(gens.make_aggregate(qr, spec).get_FoersterRateMatrix().data))
+    def foerster():
+        if case.get("reassign") is None:
+            return numpy.array(gens.make_aggregate(qr, spec).get_FoersterRateMatrix().data)
+        # the same system with a hand-made system-bath interaction in which one site first got another site's bath
+        # and was then assigned its own: the last assignment counts
+        from quantarhei.qm import Operator, SystemBathInteraction, FoersterRateMatrix
+        from quantarhei.qm.corfunctions import CorrelationFunctionMatrix
+        k = case["reassign"] % n
+        other = (k + 1) % n
+        time = qr.TimeAxis(t0, int(nt), dtt)
+        with qr.energy_units("1/cm"):
+            cfs = [qr.CorrelationFunction(time, gens.bath_params(b, T)) for b in spec["bath"]]
+        cm = CorrelationFunctionMatrix(time, n, n)
+        for i in range(n):
+            cm.set_correlation_function(cfs[other] if i == k else cfs[i], [(i, i)])
+        cm.set_correlation_function(cfs[k], [(k, k)])
+        ops = []
+        for i in range(n):
+            K = numpy.zeros((n + 1, n + 1)); K[i + 1, i + 1] = 1.0
+            ops.append(Operator(data=K))
+        sbi = SystemBathInteraction(ops, cm)
+        with qr.energy_units("int"):
+            ham = qr.Hamiltonian(data=gens.site_hamiltonian_int(spec).copy())
+        ctx.label("foerster:bath-reassigned")
+        return numpy.array(FoersterRateMatrix(ham, sbi).data)
+    ok, KF = guarded(ctx, "foerster-rates", foerster)
     if ok:
         sc = max(1e-12, float(numpy.max(numpy.abs(KF))))
         ctx.close("foerster-rates/column-sums", numpy.sum(KF, axis=0), numpy.zeros(n + 1), rtol=0, atol=1e-9 * sc)
@@ -237,6 +285,10 @@ def _check_bath(case, ctx):
     if case["ftype"] == "OverdampedBrownian":
         params = dict(ftype="OverdampedBrownian", reorg=float(case["reorg"]), cortime=float(case["cortime"]), T=float(T),
                       matsubara=20)
+    elif case["ftype"] == "B777-alternative":
+        params = dict(ftype="B777", reorg=float(case["reorg"]), alternative_form=True, gamma=0.01, T=float(T))
+    elif case["ftype"] == "CP29":
+        params = dict(ftype="CP29", reorg=float(case["reorg"]), gamma=0.01, T=float(T))
     else:
         params = dict(ftype="UnderdampedBrownian", reorg=float(case["reorg"]), freq=float(case["freq"]),
                       gamma=1.0 / float(case["cortime"]), T=float(T))
@@ -266,6 +318,10 @@ def _check_bath(case, ctx):
     if case["ftype"] == "OverdampedBrownian":
         def Jo(x):
             return orc.ob_spectral_density(x, lam_i, float(case["cortime"]))
+    elif case["ftype"] in ("B777-alternative", "CP29"):
+        # smooth model densities: the library's own values, linearly interpolated, measure the sensitivity
+        def Jo(x):
+            return numpy.interp(x, w, J)
     else:
         w0_i = float(case["freq"]) * orc.CM2INT
         g_i = (1.0 / float(case["cortime"])) * orc.CM2INT      # given inside the 1/cm context: converted as an energy
